@@ -663,6 +663,15 @@ impl<'de, R: Read<'de>> Parser<R> {
                 }
             }
         };
+        // A numeric literal ends at a delimiter; `1+` or `0x10` are not a
+        // number followed by a symbol.
+        if let Token::Number(_) = &token {
+            if let Some(next) = self.peek()? {
+                if !is_delimiter(next) {
+                    return Err(self.peek_error(ErrorCode::InvalidNumber));
+                }
+            }
+        }
         // Whatever character a symbol starts with, a trailing colon makes it a
         // keyword when that syntax is enabled.
         if let Token::Symbol(name) = &token {
